@@ -1,3 +1,4 @@
 import Biogo.Properties.C04_seq
 open Biogo.Properties.C04_seq
-#print axioms crlf_line
+#print axioms fasta_layout_independent
+#print axioms fasta_rewrap
